@@ -408,3 +408,252 @@ func runR127(c *Ctx) {
 		c.undecided("internal/fastcsv|functions", "-", "no function found")
 	}
 }
+
+// ---- R118 clause (b): allocation sizes supplied by the caller ----
+
+// publicPkg: a package of the module that client code can import (not internal/, cmd/, contrib/).
+func publicPkg(pk *types.Package) bool {
+	if pk == nil {
+		return false
+	}
+	path := pk.Path()
+	if len(path) < len(modPath) || path[:len(modPath)] != modPath {
+		return false
+	}
+	rest := path[len(modPath):]
+	for _, seg := range []string{"/internal", "/cmd", "/contrib"} {
+		if len(rest) >= len(seg) && rest[:len(seg)] == seg {
+			return false
+		}
+	}
+	return true
+}
+
+// impliesNonNeg: the dominating guards of block b establish v >= 0 (v compared through its access path).
+func impliesNonNeg(v ssa.Value, b *ssa.BasicBlock) bool {
+	if b == nil {
+		return false
+	}
+	want := accessPath(stripConv(v))
+	for _, g := range dominatingGuards(b) {
+		cmp, ok := g.Cond.(*ssa.BinOp)
+		if !ok {
+			continue
+		}
+		x, y := stripConv(cmp.X), stripConv(cmp.Y)
+		op := cmp.Op
+		if k, isK := constInt(x); isK {
+			// k OP v  ->  v OP' k
+			_ = k
+			x, y = y, x
+			switch op {
+			case token.LSS:
+				op = token.GTR
+			case token.LEQ:
+				op = token.GEQ
+			case token.GTR:
+				op = token.LSS
+			case token.GEQ:
+				op = token.LEQ
+			}
+		}
+		k, isK := constInt(y)
+		if !isK || (x != stripConv(v) && accessPath(x) != want) {
+			continue
+		}
+		switch {
+		case op == token.GEQ && g.Val && k >= 0,
+			op == token.GTR && g.Val && k >= -1,
+			op == token.LSS && !g.Val && k >= 0,
+			op == token.LEQ && !g.Val && k >= -1,
+			op == token.EQL && g.Val && k >= 0:
+			return true
+		}
+	}
+	return false
+}
+
+type sizeTaint struct {
+	p     *Prog
+	seen  map[ssa.Value]bool
+	steps int
+}
+
+// source returns a description when v (used in block b) can be a caller-supplied integer that no guard on the
+// way has shown to be non-negative; "" otherwise.
+func (t *sizeTaint) source(v ssa.Value, b *ssa.BasicBlock, depth int) string {
+	if v == nil || depth > 8 || t.steps > 400 {
+		return ""
+	}
+	t.steps++
+	if impliesNonNeg(v, b) {
+		return ""
+	}
+	if t.seen[v] {
+		return ""
+	}
+	t.seen[v] = true
+	switch x := v.(type) {
+	case *ssa.Const:
+		return ""
+	case *ssa.Convert:
+		if bt, ok := x.X.Type().Underlying().(*types.Basic); ok && bt.Info()&types.IsUnsigned != 0 && intSize(x.X.Type()) < 64 {
+			return ""
+		}
+		return t.source(x.X, b, depth+1)
+	case *ssa.ChangeType:
+		return t.source(x.X, b, depth+1)
+	case *ssa.BinOp:
+		switch x.Op {
+		case token.ADD, token.MUL, token.SUB, token.QUO, token.SHR, token.SHL:
+			if s := t.source(x.X, b, depth+1); s != "" {
+				return s
+			}
+			return t.source(x.Y, b, depth+1)
+		}
+		return ""
+	case *ssa.Phi:
+		for i, e := range x.Edges {
+			if s := t.source(e, x.Block().Preds[i], depth+1); s != "" {
+				return s
+			}
+		}
+		return ""
+	case *ssa.Parameter:
+		if !isIntKind(x.Type()) {
+			return ""
+		}
+		fn := x.Parent()
+		if obj, ok := fn.Object().(*types.Func); ok && obj.Exported() && publicPkg(obj.Pkg()) && fn.Parent() == nil {
+			recvOK := true
+			if r := fn.Signature.Recv(); r != nil {
+				if n, ok := deref(r.Type()).(*types.Named); !ok || !n.Obj().Exported() {
+					recvOK = false
+				}
+			}
+			if recvOK {
+				return fmt.Sprintf("parameter %s of the public %s", x.Name(), fname(fn))
+			}
+		}
+		idx := -1
+		for i, prm := range fn.Params {
+			if prm == x {
+				idx = i
+			}
+		}
+		sites, _ := t.p.staticCallSites(fn)
+		for _, cs := range sites {
+			args := cs.Common().Args
+			if idx < 0 || idx >= len(args) {
+				continue
+			}
+			if s := t.source(args[idx], cs.Block(), depth+1); s != "" {
+				return s
+			}
+		}
+		return ""
+	case *ssa.Extract:
+		return t.source(x.Tuple, b, depth+1)
+	case *ssa.Call:
+		if bn := builtinName(x); bn != "" {
+			return "" // len, cap, copy, min ... of non-negative things
+		}
+		cal := x.Call.StaticCallee()
+		if cal == nil || cal.Blocks == nil || cal.Pkg == nil || !inModule(cal.Pkg.Pkg) {
+			return ""
+		}
+		var out string
+		eachInstr(cal, func(in ssa.Instruction) {
+			r, ok := in.(*ssa.Return)
+			if !ok || out != "" {
+				return
+			}
+			for _, res := range r.Results {
+				if isIntKind(res.Type()) {
+					if s := t.source(res, r.Block(), depth+1); s != "" {
+						out = s
+					}
+				}
+			}
+		})
+		return out
+	}
+	// a field
+	if fld, _ := fieldOf(v); fld != nil && isIntKind(fld.Type()) {
+		owner := ""
+		var ownerPkg *types.Package
+		switch y := v.(type) {
+		case *ssa.UnOp:
+			if fa, ok := y.X.(*ssa.FieldAddr); ok {
+				if n, ok := deref(fa.X.Type()).(*types.Named); ok {
+					owner, ownerPkg = n.Obj().Name(), n.Obj().Pkg()
+				}
+			}
+		case *ssa.Field:
+			if n, ok := y.X.Type().(*types.Named); ok {
+				owner, ownerPkg = n.Obj().Name(), n.Obj().Pkg()
+			}
+		}
+		if owner != "" && fld.Exported() && types.NewTypeName(0, ownerPkg, owner, nil).Exported() && publicPkg(ownerPkg) {
+			return fmt.Sprintf("field %s of the public struct %s.%s", fld.Name(), ownerPkg.Name(), owner)
+		}
+		// an internal field: what is stored into it anywhere in the module
+		var out string
+		for _, fn := range t.p.Funcs {
+			if out != "" {
+				break
+			}
+			eachInstr(fn, func(in ssa.Instruction) {
+				st, ok := in.(*ssa.Store)
+				if !ok || out != "" {
+					return
+				}
+				fa, ok := st.Addr.(*ssa.FieldAddr)
+				if !ok {
+					return
+				}
+				if stt, ok := deref(fa.X.Type()).Underlying().(*types.Struct); ok && stt.Field(fa.Field) == fld {
+					if s := t.source(st.Val, st.Block(), depth+1); s != "" {
+						out = s
+					}
+				}
+			})
+		}
+		return out
+	}
+	return ""
+}
+
+func r118CallerSizes(c *Ctx) {
+	p := c.P
+	for _, fn := range p.Funcs {
+		if fn.Pkg == nil || fn.Pkg.Pkg.Path() == rel("internal/ryu") {
+			continue
+		}
+		eachInstr(fn, func(in ssa.Instruction) {
+			mk, ok := in.(*ssa.MakeSlice)
+			if !ok {
+				return
+			}
+			for i, sz := range []ssa.Value{mk.Len, mk.Cap} {
+				if _, isC := sz.(*ssa.Const); isC {
+					continue
+				}
+				if call, ok := sz.(*ssa.Call); ok && (builtinName(call) == "len" || builtinName(call) == "cap") {
+					continue
+				}
+				what := "length"
+				if i == 1 {
+					what = "capacity"
+				}
+				key := fmt.Sprintf("%s|make %s from the caller", fname(fn), what)
+				t := &sizeTaint{p: p, seen: map[ssa.Value]bool{}}
+				if src := t.source(sz, in.Block(), 0); src != "" {
+					c.bad(key, p.instrPos(in), fmt.Sprintf("the %s of this allocation comes from %s and no test on the way establishes that it is not negative: a negative value panics (makeslice: len out of range) instead of being reported through Err", what, src))
+				} else {
+					c.okTrivial(key, p.instrPos(in), "not a caller-supplied integer, or shown to be >= 0 by a dominating test")
+				}
+			}
+		})
+	}
+}
